@@ -26,6 +26,14 @@ def run(rep):
                       "theorem_or_correspondence": "build of zydrv/zyh", "log": (prep["drv_out"] + prep["harness_out"])[-3000:]}, no_input=True)
         return
     rows, stats = V.run_channel("sq", rep.seed, rep.tier)
+    if rep.tier == "thorough":
+        # more seeds for the random part (the exhaustive part is emitted by the first only)
+        for extra in (1, 2):
+            r2, s2 = V.run_channel("sq", rep.seed + extra, "thorough-more")
+            rows += r2
+            for k, v in s2.items():
+                stats[k] = stats.get(k, 0) + v
+        rep.coverage["seeds"] = [rep.seed, rep.seed + 1, rep.seed + 2]
 
     def nontrivial(op, impl):
         return impl.startswith("ok ") or impl.startswith("code ") or (impl.startswith("x ") and " eq " in impl)
